@@ -111,7 +111,7 @@ def gen_history(rng, c, nsteps=None, uniform=False, outer_only=False, pressure=T
 def to_impl(c, cid):
     """case dict with floats -> the hex-string form the driver reads"""
     out = {"id": cid}
-    for k in ("nr", "nt", "nz", "dim", "trial", "want", "probe", "stop_at", "init"):
+    for k in ("nr", "nt", "nz", "dim", "trial", "want", "probe", "stop_at", "init", "network"):
         if k in c and c[k] is not None:
             out[k] = c[k]
     for k in ("r", "t", "h", "T0", "zslice", "aslice"):
